@@ -84,8 +84,8 @@ def aml_sites(rng, th):
                           "fields": [{"k": "reserved", "bits": 8}, {"k": "reserved", "bits": 0, "bitsw": vlib.le(v, 8)}]}, tag="field_reserved_wide/%d" % v))
     # bodies of 2^28 bytes built for real (about 1 GiB peak each), through every length-prefixed emitter: well below the
     # limit, where only the outer object exceeds it, and where the inner buffer already does
-    kinds = ["BufferData", "Package", "VarPackage", "BufferTerm", "Device", "Scope", "Method", "PowerResource", "If", "Else", "While"]
-    for kind in (kinds if th else ["BufferData", "Package", "Scope", "Method", "Device", "If"]):
+    kinds = ["BufferData", "Package", "PackageBuilder", "VarPackage", "BufferTerm", "Device", "Scope", "ScopeRaw", "Method", "PowerResource", "If", "Else", "While"]
+    for kind in (kinds if th else ["BufferData", "Package", "PackageBuilder", "Scope", "ScopeRaw", "Method", "Device", "If"]):
         for n in ((maxv - 60, maxv - 12, maxv - 9, maxv - 2, maxv + 1) if th else (maxv - 60, maxv - 9, maxv + 1)):
             g, t = amlgen.sized(rng, kind, n)
             progs.append(aml(t, summary=True, tag="%s_body/%d" % (kind, n)))
